@@ -5,7 +5,8 @@
 //!            OPEN + request + CLOSE triplets per stream without waiting for anything.
 //! The handlers (hook) record invocation / return times in clock time. The clock is advanced in seeded fractions /
 //! multiples of the refresh period, each time after the system is quiescent.
-//!   rpc_drv <trace-out> <report-out> <seed> <burst> <refresh_ns> <hammer|raw> <steps>
+//!   greedy : like raw, but its mux handshake claims 1000 streams per capability and it also uses stream ids beyond the node's own limits.
+//!   rpc_drv <trace-out> <report-out> <seed> <burst> <refresh_ns> <hammer|raw|greedy> <steps>
 use std::sync::{Arc, Mutex};
 
 use rand::Rng;
@@ -96,6 +97,7 @@ fn main() {
         let step_ns = step_ns2;
         rt.block_on(async move {
             let hs = if mode2 == "raw" { client_handshake(&msg).await } else { vec![] };
+            let _ = &hs;
             let clock = ctx::ManualClock::new();
             let root = ctx::test_root(&clock);
             *t0c2.lock().unwrap() = Some(clock.now());
@@ -108,7 +110,7 @@ fn main() {
                 let ends3 = ends2.clone();
                 s.spawn_bg(async move {
                     let r = verif::rpc_serve(ctx, ea, rate, time::Duration::nanoseconds(hold_ns), rl).await;
-                    *ends3.lock().unwrap() = format!("{r:?}");
+                    *ends3.lock().unwrap() = format!("{r:?}").lines().next().unwrap_or("").chars().take(120).collect();
                     Ok(())
                 });
                 let mut _keep = None;
@@ -123,7 +125,13 @@ fn main() {
                 } else {
                     // raw peer: handshake, then everything it will ever say, up front, round-robin over the server's 4 streams
                     // (ids 0..2 = consensus, 3 = ping: capabilities in ascending order, INFLIGHT streams each)
-                    pipe::release(&ba, &hs);
+                    let greedy = mode2 == "greedy";
+                    // greedy: the handshake claims 1000 accept streams per capability (the node must still use min(own INFLIGHT, claim))
+                    let greedy_hs: Vec<u8> = {
+                        let body = [0x2au8, 5, 0x08, 0, 0x10, 0xe8, 0x07, 0x2a, 5, 0x08, 2, 0x10, 0xe8, 0x07];
+                        lp(&body)
+                    };
+                    pipe::release(&ba, if greedy { &greedy_hs } else { &hs });
                     let ping_req = {
                         let mut p = vec![0x0a, 32];
                         p.extend([7u8; 32]);
@@ -147,7 +155,17 @@ fn main() {
                         lp(&p)
                     };
                     let mut bytes = vec![];
-                    for _ in 0..400 {
+                    for round in 0..400 {
+                        if greedy && round == 1 {
+                            // streams beyond the node's own in-flight limits: a protocol error on the faithful node
+                            for id in (inf_cons + inf_ping) as u16..(inf_cons + inf_ping) as u16 + 6 {
+                                bytes.extend(header("OPEN", false, id));
+                                bytes.extend(header("DATA", false, id));
+                                bytes.extend((cons_req.len() as u16).to_le_bytes());
+                                bytes.extend(&cons_req);
+                                bytes.extend(header("CLOSE", false, id));
+                            }
+                        }
                         for id in 0..(inf_cons + inf_ping) as u16 {
                             let req = if (id as u32) < inf_cons { &cons_req } else { &ping_req };
                             bytes.extend(header("OPEN", false, id));
@@ -188,7 +206,7 @@ fn main() {
     rep.add("client_completed_consensus", nc);
     let total_ns: i64 = step_ns.iter().sum();
     rep.sample(json!({"seed": seed, "mode": mode, "burst": burst, "refresh_ns": refresh_ns, "hold_ns": hold_ns, "clock_ns": total_ns, "server_end": ends.lock().unwrap().clone()}));
-    if starts == 0 {
+    if starts == 0 && mode != "greedy" {
         rep.fail("rpc_no_calls", "no RPC handler was ever invoked: the driver exercises nothing", json!({"seed": seed, "mode": mode}));
     }
     log.write(&a[0]);
